@@ -68,3 +68,4 @@ pub fn short_table(ids: &[u8]) -> bool {
     }
     true
 }
+pub static PLAIN_TABLE: [u8; 4] = [1, 2, 3, 4];
